@@ -25,7 +25,7 @@ EXPLANATION = (
     "skip/stride/atom_indices/chunk dependence.")
 NOT_DECIDED = ["equality of the values read (run-time)", "the XDR offset arithmetic inside C", "efficient-striding seek path of xtc/trr beyond its structure"]
 ASSUMPTIONS = ["read_next_timestep / read_xtc / read_trr consume exactly one frame per successful call"]
-FLOORS = {"C02-R1": 30, "C02-R2": 10, "C02-R3": 3, "C02-R4": 6, "C02-R5": 10, "C02-R6": 8}
+FLOORS = {"C02-R1": 30, "C02-R2": 10, "C02-R3": 3, "C02-R4": 6, "C02-R5": 15, "C02-R6": 8}
 
 LOADERS = {  # ext -> class key
     ".xtc": "xtc", ".trr": "trr", ".dcd": "dcd", ".dtr": "dtr", ".h5": "h5", ".nc": "nc", ".mdcrd": "mdcrd", ".xyz": "xyz",
@@ -146,6 +146,12 @@ def _r2(ctx):
                     if any(isinstance(c, ast.Call) and ((call_name(c) or "").endswith(("_read", "read_next_timestep", "read_xtc", "read_trr", "_read_frame")))
                            for c in ast.walk(n)):
                         skip_loop = True
+                    else:
+                        # frames stepped over by a second routine: it must consume exactly one frame
+                        other = [c for c in ast.walk(n) if isinstance(c, ast.Call) and (call_name(c) or "").startswith("self._")]
+                        if other:
+                            skip_loop = True
+                            _second_skipper(ctx, key, rel, cls, q, other[0])
             if isinstance(n, ast.AugAssign) and isinstance(n.op, ast.Mult) and dotted(n.target) in ("n_frames", "_n_frames") and src(n.value) in names:
                 scaled = True
                 # the scaling may only be guarded by tests on stride / on n_frames being None
@@ -190,6 +196,60 @@ def _r2(ctx):
                       + ("; relative seek when offsets are cached" if seek_rel else ""))
         else:
             ctx.violated("C02-R2", fn, rel, q, "stride unused", "read() accepts a stride but never applies it")
+
+
+def _second_skipper(ctx, key, rel, cls, q, call):
+    """A routine other than the frame parser is used to step over frames: decide that it consumes exactly one frame (text formats with a fixed line count), else UNDECIDED."""
+    name = call_name(call)[5:]
+    fn = F.method(ctx, key, name, required=False)
+    per_line = {"mdcrd": 10}.get(key)
+    if fn is None or per_line is None:
+        ctx.undecided("C02-R2", call, rel, q, "frames skipped by self.%s()" % name, "a routine other than the frame parser steps over frames; its agreement with the parser cannot be decided for this format")
+        return
+    cnt = [n for n in walk_no_nested(fn) if isinstance(n, ast.Assign) and isinstance(n.targets[0], ast.Name) and "_n_atoms" in src(n.value)]
+    loops = [n for n in walk_no_nested(fn) if isinstance(n, ast.For) and isinstance(n.iter, ast.Call) and call_name(n.iter) == "range" and cnt and src(n.iter.args[0]) == cnt[0].targets[0].id
+             and any(isinstance(c, ast.Call) and (call_name(c) or "").endswith("readline") for c in ast.walk(n))]
+    if not cnt or not loops:
+        ctx.undecided("C02-R2", fn, rel, "%s.%s" % (cls, name), "lines consumed per frame", "the number of lines consumed per skipped frame is not a recognisable expression of the atom count")
+        return
+    expr = cnt[0].value
+
+    def ev(node, n_atoms):
+        if isinstance(node, ast.Constant) and isinstance(node.value, (int, float)):
+            return node.value
+        if isinstance(node, ast.Attribute) and node.attr in ("_n_atoms", "n_atoms"):
+            return n_atoms
+        if isinstance(node, ast.Name) and node.id in ("n_atoms",):
+            return n_atoms
+        if isinstance(node, ast.UnaryOp) and isinstance(node.op, ast.USub):
+            return -ev(node.operand, n_atoms)
+        if isinstance(node, ast.BinOp):
+            a, b = ev(node.left, n_atoms), ev(node.right, n_atoms)
+            if isinstance(node.op, ast.Add):
+                return a + b
+            if isinstance(node.op, ast.Sub):
+                return a - b
+            if isinstance(node.op, ast.Mult):
+                return a * b
+            if isinstance(node.op, ast.FloorDiv):
+                return a // b
+            if isinstance(node.op, ast.Div):
+                return a / b
+            if isinstance(node.op, ast.Mod):
+                return a % b
+        if isinstance(node, ast.Call) and (call_name(node) or "").split(".")[-1] in ("int", "ceil") and node.args:
+            import math
+            v = ev(node.args[0], n_atoms)
+            return int(v) if call_name(node) == "int" else math.ceil(v)
+        raise ValueError(src(node))
+    try:
+        wrong = [(n_, ev(expr, n_), -(-3 * n_ // per_line)) for n_ in range(1, 61) if ev(expr, n_) != -(-3 * n_ // per_line)]
+    except (ValueError, ZeroDivisionError) as e:
+        ctx.undecided("C02-R2", cnt[0], rel, "%s.%s" % (cls, name), "lines consumed per frame", "expression not evaluable: %s" % e)
+        return
+    ctx.decide(not wrong, "C02-R2", cnt[0], rel, "%s.%s" % (cls, name), "a skipped frame consumes ceil(3 n_atoms / %d) coordinate lines" % per_line, "evaluated for n_atoms = 1..60",
+               "`%s` lines are consumed per skipped frame; the format holds %d values per line, so a frame has ceil(3n/%d) lines: for n_atoms = %d the routine consumes %d instead of %d and every later frame is built from shifted lines"
+               % (src(expr), per_line, per_line, wrong[0][0] if wrong else 0, wrong[0][1] if wrong else 0, wrong[0][2] if wrong else 0))
 
 
 def _r3(ctx):
@@ -337,6 +397,34 @@ def _r5(ctx):
         uses = any(isinstance(n, ast.Subscript) and "atom_" in src(n.slice) for n in walk_no_nested(rd)) or \
             any(isinstance(n, ast.Name) and n.id in ("atom_indices", "atom_slice") for n in walk_no_nested(rd))
         ctx.decide(uses, "C02-R5", rd, rel, cls + ".read", "coordinates indexed by atom_indices", "", "read() ignores atom_indices")
+        # text formats: the selection is applied to the assembled frame, never inside the line parser
+        if key in ("mdcrd", "xyz", "lammpstrj", "gro", "arc"):
+            parents = {}
+            for p_ in ast.walk(rd):
+                for c_ in ast.iter_child_nodes(p_):
+                    parents[id(c_)] = p_
+            bad = []
+            n_uses = 0
+            for n in ast.walk(rd):
+                if not (isinstance(n, ast.Name) and n.id in ("atom_indices", "atom_slice") and isinstance(n.ctx, ast.Load)):
+                    continue
+                n_uses += 1
+                par = parents.get(id(n))
+                ok = False
+                if isinstance(par, ast.Compare) and any(isinstance(c, ast.Constant) and c.value is None for c in par.comparators):
+                    ok = True
+                elif isinstance(par, ast.Subscript) and par.slice is n:
+                    ok = True
+                elif isinstance(par, ast.Tuple) and isinstance(parents.get(id(par)), ast.Subscript):
+                    ok = True
+                elif isinstance(par, ast.Call) and (call_name(par) or "").split(".")[-1] in ("cast_indices", "ensure_type", "asarray", "array"):
+                    ok = True
+                elif isinstance(par, (ast.IfExp, ast.Assign)):
+                    ok = True
+                if not ok:
+                    bad.append((n, src(par)[:60] if par is not None else "?"))
+            ctx.decide(n_uses > 0 and not bad, "C02-R5", bad[0][0] if bad else rd, rel, cls + ".read", "atom_indices only subscripts the assembled frame (%d uses)" % n_uses, "",
+                       "atom_indices is used in `%s`: the selection reaches the frame parser, which identifies atoms by line position / id column, not by the caller's index" % (bad[0][1] if bad else ""))
 
 
 def _r6(ctx):
